@@ -564,9 +564,44 @@ func (e *Exec) scanCallWrites(st *State, call *ast.CallExpr, fp *footprint, info
 		// no contract: executed in place (see inlineTarget); its writes belong to the loop's footprint
 		if inModule(origin.Pkg()) && fp.depth < 6 {
 			if d := e.prog.decls[origin]; d != nil && d.Body != nil {
+				// bind the callee's parameters to what the arguments denote at the loop head, so that
+				// writes through them resolve to the caller's arrays / objects
+				sig := fn.Type().(*types.Signature)
+				type savedCell struct {
+					c   *Cell
+					v   Value
+					had bool
+				}
+				var saved []savedCell
+				for i := 0; i < sig.Params().Len() && i < len(call.Args); i++ {
+					if sig.Variadic() && i == sig.Params().Len()-1 {
+						break
+					}
+					pc := e.cellFor(sig.Params().At(i))
+					var av Value
+					if v, ok := e.evalAtHead(st, call.Args[i], fp, info); ok {
+						av = v
+					} else if arr, ok := e.resolveArrayRoot(st, call.Args[i], fp, info, 0); ok && reprOf(sig.Params().At(i).Type()) == rSlice {
+						dv := e.symbolicValue(st.clone(), sig.Params().At(i).Type(), "dummy").(SliceVal)
+						dv.Arr = arr
+						av = dv
+					}
+					if av != nil {
+						old, had := st.store[pc]
+						saved = append(saved, savedCell{pc, old, had})
+						st.store[pc] = av
+					}
+				}
 				fp.depth++
 				e.scanWrites(st, d.Body, fp, e.prog.declPkg[origin].TypesInfo)
 				fp.depth--
+				for _, sc := range saved {
+					if sc.had {
+						st.store[sc.c] = sc.v
+					} else {
+						delete(st.store, sc.c)
+					}
+				}
 			}
 		}
 		return
